@@ -512,10 +512,15 @@ func TestVerifC05(t *testing.T) {
 		scns = append(scns, three[rng.Intn(len(three))])
 	}
 	for _, s := range scns {
-		n, cut := w.Explore(level, s, maxRuns)
+		// quick tier: scenarios of three and more requests get a smaller budget (the large ones are enumerated in the thorough tier)
+		budget := maxRuns
+		if !thorough && len(s.Threads) >= 3 && budget > 700 {
+			budget = 700
+		}
+		n, cut := w.Explore(level, s, budget)
 		if cut {
-			// too many schedules to enumerate: add as many uniformly random walks through the schedule tree
-			w.Sample(level, s, maxRuns, rng.Intn)
+			// too many schedules to enumerate: add random walks through the schedule tree
+			w.Sample(level, s, budget/2, rng.Intn)
 		}
 		w.Count(s, n, cut)
 	}
@@ -611,7 +616,7 @@ func TestVerifC05(t *testing.T) {
 			c05Window(w, tc.client, validity, skew, first, replay)
 		}
 	}
-	t.Logf("C05 iam harness: %d runs, %d goroutine dumps", w.Runs, w.Dumps)
+	t.Logf("C05 iam harness: %d runs, %d goroutine dumps, %d diverged re-executions repeated", w.Runs, w.Dumps, storage.VerifC05Diverged)
 }
 
 // c05Window: a JSON-LD presentation with the maximum validity, created `skew` seconds after the origin; it is presented at
